@@ -20,6 +20,7 @@ type gstate struct {
 	nrule int
 	ngarb int
 	built bool // some build has happened since the last change (for repeats)
+	listed []string // packages currently listed in WORKSPACE.caco3
 }
 
 const baseTime = int64(1700000000)
@@ -474,6 +475,7 @@ func history(r *hx.Rng, stream string, maxOps int) Case {
 	for i := 0; i < npk; i++ {
 		g.pkgs = append(g.pkgs, fmt.Sprintf("p%d", i))
 	}
+	g.listed = append([]string{}, g.pkgs...)
 	for _, p := range g.pkgs {
 		n := 2 + r.Intn(4)
 		for i := 0; i < n; i++ {
@@ -487,7 +489,13 @@ func history(r *hx.Rng, stream string, maxOps int) Case {
 	for i := 0; i < nr; i++ {
 		g.rules = append(g.rules, g.newRule(i, r.Intn(4) == 0))
 	}
-	c := Case{Stream: stream, Pkgs: g.pkgs, Rules: copyRules(g.rules)}
+	c := Case{Stream: stream, Pkgs: g.pkgs, Rules: copyRules(g.rules), Builder: "fresh"}
+	if r.Intn(2) == 0 { // one long-lived Builder (per configuration) for the whole history
+		c.Builder = "one"
+	}
+	if r.Intn(4) == 0 { // the Builders are made inside a package directory
+		c.Work = g.pkgs[r.Intn(len(g.pkgs))]
+	}
 	for _, n := range g.srcNames() {
 		c.Src = append(c.Src, g.src[n])
 	}
@@ -496,6 +504,9 @@ func history(r *hx.Rng, stream string, maxOps int) Case {
 	var lastTargets []string
 	for len(c.Ops) < nops {
 		k := r.Intn(100)
+		if c.Builder == "one" && r.Intn(40) == 0 { // the process restarts: a new Builder
+			c.Ops = append(c.Ops, Op{K: "newbuilder", What: "newbuilder"})
+		}
 		switch {
 		case k < 3: // time passes: an hour, days, beyond the expiry
 			dts := []int64{3600e9, 3 * 86400e9, 7*86400e9 - 1e9, 2e9, 8 * 86400e9}
@@ -517,9 +528,21 @@ func history(r *hx.Rng, stream string, maxOps int) Case {
 			if op, ok := g.rulesOp(&oldRules); ok {
 				c.Ops = append(c.Ops, op)
 			}
-		default:
+		case k < 97:
 			if op, ok := g.tamperOp(); ok {
 				c.Ops = append(c.Ops, op)
+			}
+		case k < 99: // rm -rf out/
+			c.Ops = append(c.Ops, Op{K: "wipe", What: "wipe-out"})
+		default: // WORKSPACE.caco3 edited: a package leaves or all come back
+			if len(g.pkgs) > 1 {
+				if len(g.listed) < len(g.pkgs) {
+					g.listed = append([]string{}, g.pkgs...)
+				} else {
+					i := g.r.Intn(len(g.pkgs))
+					g.listed = append(append([]string{}, g.pkgs[:i]...), g.pkgs[i+1:]...)
+				}
+				c.Ops = append(c.Ops, Op{K: "pkgs", What: "workspace-edit", Pkgs: append([]string{}, g.listed...)})
 			}
 		}
 	}
@@ -662,10 +685,119 @@ func edgeCases() []Case {
 	return cs
 }
 
+// oneBuilderCorpus: fixed histories for state that a Builder holds across
+// Build calls (all on ONE long-lived Builder): a target subset, an edit of
+// a shared dependency, another subset; a failing rule built again with nothing
+// changed; a diamond built through one arm, then through the other; an
+// output deleted between two builds of different targets; a BUILD edit
+// between builds; a renewed Builder in the middle.
+func oneBuilderCorpus() []Case {
+	st := func(size int64, tick int64) Stat {
+		return Stat{Size: size, Mtime: (baseTime + tick) * 1000000000, Mode: 0o644}
+	}
+	file := func(name, content string, tick int64) SrcFile {
+		return SrcFile{Name: name, Content: content, Stat: st(int64(len(content)), tick)}
+	}
+	set := func(name, content string, tick int64) Op {
+		s := st(int64(len(content)), tick)
+		return Op{K: "src", What: "edit", Name: name, Stat: &s, Content: content}
+	}
+	build := func(ts ...string) Op { return Op{K: "build", Targets: ts} }
+	renew := Op{K: "newbuilder", What: "newbuilder"}
+	base := Rule{K: "file_set", Dir: "pkg", Local: "base", Name: "pkg/base", Files: []string{"pkg/a.txt"}}
+	left := Rule{K: "file_set", Dir: "pkg", Local: "left", Name: "pkg/left", Files: []string{"pkg/l.txt"},
+		Include: []string{"pkg/base"}}
+	right := Rule{K: "file_set", Dir: "pkg", Local: "right", Name: "pkg/right", Files: []string{"pkg/r.txt"},
+		Include: []string{"pkg/base"}}
+	both := Rule{K: "bundle", Dir: "pkg", Local: "both", Name: "pkg/both", Deps: []string{"pkg/left", "pkg/right"}}
+	src := []SrcFile{file("pkg/a.txt", "a\n", 1), file("pkg/l.txt", "left\n", 2), file("pkg/r.txt", "right\n", 3)}
+	pk := []string{"pkg"}
+	rules := []Rule{base, left, right, both}
+	mk := func(rules []Rule, ops ...Op) Case {
+		return Case{Stream: "corpus-one-builder", Builder: "one", Pkgs: pk, Rules: rules, Src: src, Ops: ops}
+	}
+	var cs []Case
+	// subset, edit of the shared dependency, the other subset, then everything
+	cs = append(cs, mk(rules, build("pkg/left"), set("pkg/a.txt", "a changed\n", 10), build("pkg/right"),
+		build("pkg/both"), build("pkg/both")))
+	// the same with the first subset built again after the edit
+	cs = append(cs, mk(rules, build("pkg/left"), set("pkg/a.txt", "a changed\n", 10), build("pkg/left"),
+		set("pkg/l.txt", "left changed\n", 11), build("pkg/both"), build("pkg/left")))
+	// a failing rule (a file set including a bundle) built again, nothing changed; then repaired
+	bun := Rule{K: "bundle", Dir: "pkg", Local: "bun", Name: "pkg/bun", Deps: []string{"pkg/base"}}
+	top := Rule{K: "file_set", Dir: "pkg", Local: "top", Name: "pkg/top", Files: []string{"pkg/l.txt"},
+		Include: []string{"pkg/bun"}}
+	topOK := top
+	topOK.Include = []string{"pkg/base"}
+	cs = append(cs, mk([]Rule{base, bun, top}, build("pkg/top"), build("pkg/top"), build("pkg/base"), build("pkg/top"),
+		Op{K: "rules", What: "change-rule", Rules: []Rule{base, bun, topOK}}, build("pkg/top"), build("pkg/top"),
+		Op{K: "rules", What: "inject-failing", Rules: []Rule{base, bun, top}}, build("pkg/top"), build("pkg/top")))
+	// an output deleted / overwritten between builds of different targets
+	n := 3
+	cs = append(cs, mk(rules, build("pkg/left"),
+		Op{K: "tamper", What: "delete-output", Out: "pkg/base.fileset"}, build("pkg/right"),
+		Op{K: "tamper", What: "overwrite-garbage", Out: "pkg/base.fileset", Garbage: &n}, build("pkg/left"),
+		build("pkg/both")))
+	// a BUILD edit between builds: base gains a file; a rule changes kind
+	base2 := base
+	base2.Files = []string{"pkg/a.txt", "pkg/r.txt"}
+	leftB := Rule{K: "bundle", Dir: "pkg", Local: "left", Name: "pkg/left", Deps: []string{"pkg/base"}}
+	cs = append(cs, mk(rules, build("pkg/left"),
+		Op{K: "rules", What: "change-rule", Rules: []Rule{base2, left, right, both}}, build("pkg/right"), build("pkg/left"),
+		Op{K: "rules", What: "change-kind", Rules: []Rule{base2, leftB, right, both}}, build("pkg/both"),
+		Op{K: "rules", What: "revert-rules", Rules: rules}, build("pkg/both")))
+	// a file deleted and added again; a renewed Builder in the middle; time passing beyond the expiry
+	cs = append(cs, mk(rules, build("pkg/both"), Op{K: "src", What: "delete", Name: "pkg/r.txt"}, build("pkg/left"),
+		build("pkg/both"), set("pkg/r.txt", "right again\n", 20), build("pkg/both"), renew,
+		set("pkg/a.txt", "a3\n", 21), build("pkg/left"), build("pkg/right"),
+		Op{K: "advance", What: "advance", Dt: 8 * 86400e9}, build("pkg/right"), build("pkg/both"),
+		Op{K: "build", Targets: []string{"pkg/left"}, Always: true}, build("pkg/left"),
+		set("pkg/a.txt", "a4\n", 22), Op{K: "build", Targets: []string{"pkg/right"}, Always: true}, build("pkg/both")))
+	// out/ removed wholesale (CACHE included) between Build calls on one Builder; in the middle of
+	// a run of builds of different targets; right after a failed build
+	wipe := Op{K: "wipe", What: "wipe-out"}
+	cs = append(cs, mk(rules, build("pkg/both"), wipe, build("pkg/left"), build("pkg/both"), build("pkg/both"),
+		set("pkg/a.txt", "a5\n", 30), wipe, build("pkg/right"), wipe, wipe, build("pkg/both")))
+	cs = append(cs, mk([]Rule{base, bun, top}, build("pkg/top"), wipe, build("pkg/top"), build("pkg/base"), wipe,
+		Op{K: "rules", What: "change-rule", Rules: []Rule{base, bun, topOK}}, build("pkg/top"), build("pkg/top")))
+	// WORKSPACE.caco3 edited (the harness replaces the Builder then): a package leaves the repo map
+	// and comes back; rules of an unlisted package are not declared, its files still are sources
+	{
+		q := Rule{K: "file_set", Dir: "q", Local: "qs", Name: "q/qs", Files: []string{"q/z.txt", "pkg/a.txt"}}
+		user := Rule{K: "bundle", Dir: "pkg", Local: "user", Name: "pkg/user", Deps: []string{"q/qs", "pkg/base"}}
+		lone := Rule{K: "file_set", Dir: "pkg", Local: "lone", Name: "pkg/lone", Files: []string{"q/z.txt"}}
+		c := Case{Stream: "corpus-one-builder", Builder: "one", Pkgs: []string{"pkg", "q"},
+			Rules: []Rule{base, q, user, lone},
+			Src:   append(append([]SrcFile{}, src...), file("q/z.txt", "zed\n", 4)),
+			Ops: []Op{build("pkg/user"), build("pkg/lone"),
+				{K: "pkgs", What: "workspace-edit", Pkgs: []string{"pkg"}}, build("pkg/user"), build("pkg/lone"), build("pkg/base"),
+				set("q/z.txt", "zed2\n", 40), build("pkg/lone"),
+				{K: "pkgs", What: "workspace-edit", Pkgs: []string{"pkg", "q"}}, build("pkg/user"), build("pkg/user"),
+				{K: "pkgs", What: "workspace-edit", Pkgs: []string{"q"}}, build("q/qs"), build("pkg/base")}}
+		cs = append(cs, c)
+	}
+	return cs
+}
+
 func genCases(seed uint64, thorough bool) []Case {
 	r := hx.NewRng(seed)
 	cs := corpus()
 	cs = append(cs, edgeCases()...)
+	for i := range cs {
+		cs[i].Builder = "fresh"
+	}
+	// every fixed history once more on one long-lived Builder
+	for _, c := range append(corpus(), edgeCases()...) {
+		c.Builder = "one"
+		c.Stream += "-one"
+		cs = append(cs, c)
+	}
+	cs = append(cs, oneBuilderCorpus()...)
+	for _, c := range oneBuilderCorpus()[:3] { // ... and from inside the package directory
+		c.Work = "pkg"
+		c.Stream += "-workdir"
+		cs = append(cs, c)
+	}
 	n, maxOps := 320, 12
 	if thorough {
 		n, maxOps = 1500, 40
